@@ -112,6 +112,18 @@ Proof.
   rewrite !map_nth with (f := fun a => nth a l0 0). reflexivity.
 Qed.
 
+Theorem e_ex_spec n d0 l0 fl i j :
+  length d0 = n -> length l0 = n -> valid_flips n fl -> i < n -> j < n ->
+  let s := dflips fl (dinit n d0 l0) in
+  e_ex k0 s i j = (k0 (p s i) (p s j) * 2 ^ (4 - Z.of_nat (nth (p s i) l0 0%nat) - Z.of_nat (nth (p s j) l0 0%nat)))%Z.
+Proof.
+  intros H1 H2 V Hi Hj s. destruct (dflips_inv n d0 l0 fl H1 H2 V) as [L P D B]. fold s in L, P, D, B.
+  unfold e_ex, e_kernel. rewrite B.
+  rewrite !nth_indep with (d' := nth 0 l0 0) (n := i) by (rewrite map_length; lia).
+  rewrite !nth_indep with (d' := nth 0 l0 0) (n := j) by (rewrite map_length; lia).
+  rewrite !map_nth with (f := fun a => nth a l0 0). reflexivity.
+Qed.
+
 (* PrecomputedMatrix: swapping rows and columns of the stored matrix = re-indexing by the flipped order *)
 Lemma m_flip_spec n (m : mat) i j a b :
   length m = n -> (forall r, r < n -> length (nth r m []) = n) -> i < n -> j < n -> a < n -> b < n ->
